@@ -1,5 +1,5 @@
 """C01 - events take effect in time order, urgent first, then in trigger order."""
-from harness import kprops
+from harness import kprops, koracle
 
 ASSUMPTIONS = [
     'delays are finite non-NaN numbers; Environment.schedule/Event.trigger are not called directly by user code',
@@ -11,4 +11,4 @@ SPEC = [(5, 'time'), (2, 'intr'), (1, 'outcome'), (1, 'cond'), (2, 'plan:time')]
 
 
 def run(ctx):
-    return kprops.run_kernel(ctx, 'C01', SPEC, 2000, 60000, oracles=[kprops.oracle_time_monotone])
+    return kprops.run_kernel(ctx, 'C01', SPEC, 2000, 60000, oracles=[kprops.oracle_time_monotone, koracle.oracle_c01])
